@@ -1,10 +1,715 @@
 import JunoModel.C01.Model
-/-! Helper lemmas for C01 (the property statements themselves are in `Props.lean`). -/
+/-!
+Helper lemmas for C01, part 1: the trie2 algorithms on resolved trees keep the tree canonical,
+implement the map semantics, keep cached hashes sound, and hash to the Starknet commitment.
+(The property statements themselves are in `Props.lean`.)
+-/
 namespace Juno.C01
+open Trie2
 
-theorem spec_node_empty (k : HashKind) (n : Nat) : Spec.node k n (fun _ => .felt 0) = SNode.empty := by
-  induction n with
-  | zero => rfl
-  | succ n ih => simp [Spec.node, ih, Spec.combine, SNode.isEmpty, SNode.empty]
+/-! ### paths -/
+
+theorem cpre_full_iff (p k : Path) : (cpre p k).length = p.length ↔ p.isPrefixOf k = true := by
+  induction p generalizing k with
+  | nil => simp [cpre]
+  | cons x xs ih =>
+    cases k with
+    | nil => simp [cpre]
+    | cons y ys =>
+      simp only [cpre]; split
+      · rename_i h; subst h; simp [List.isPrefixOf, ih]
+      · rename_i h; simp [List.isPrefixOf, h]
+
+theorem cpre_length_le (p k : Path) : (cpre p k).length ≤ p.length := by
+  induction p generalizing k with
+  | nil => simp [cpre]
+  | cons x xs ih =>
+    cases k with
+    | nil => simp [cpre]
+    | cons y ys =>
+      simp only [cpre]; split
+      · simp; exact ih ys
+      · simp
+
+theorem cpre_split (p k : Path) (hlen : p.length ≤ k.length) (hne : (cpre p k).length ≠ p.length) :
+    ∃ m pb prest krest, p = m ++ pb :: prest ∧ k = m ++ (!pb) :: krest ∧ cpre p k = m := by
+  induction p generalizing k with
+  | nil => simp [cpre] at hne
+  | cons x xs ih =>
+    cases k with
+    | nil => simp at hlen
+    | cons y ys =>
+      by_cases hxy : x = y
+      · subst hxy
+        have hne' : (cpre xs ys).length ≠ xs.length := by
+          intro h; apply hne; simp [cpre, h]
+        obtain ⟨m, pb, prest, krest, h1, h2, h3⟩ := ih ys (by simpa using hlen) hne'
+        exact ⟨x :: m, pb, prest, krest, by simp [h1], by simp [h2], by simp [cpre, h3]⟩
+      · refine ⟨[], x, xs, ys, by simp, ?_, by simp [cpre, hxy]⟩
+        have : y = !x := by cases x <;> cases y <;> simp_all
+        simp [this]
+
+theorem isPrefixOf_same_len {a b : Path} (h : a.length = b.length) :
+    a.isPrefixOf b = decide (a = b) := by
+  induction a generalizing b with
+  | nil => cases b <;> simp_all
+  | cons x xs ih =>
+    cases b with
+    | nil => simp at h
+    | cons y ys =>
+      have := ih (b := ys) (by simpa using h)
+      by_cases hxy : x = y <;> simp [List.isPrefixOf, this, hxy]
+
+theorem isPrefixOf_app_cons (m a b : Path) (x y : Bool) :
+    (m ++ x :: a).isPrefixOf (m ++ y :: b) = (decide (x = y) && a.isPrefixOf b) := by
+  induction m with
+  | nil => by_cases h : x = y <;> simp [List.isPrefixOf, h]
+  | cons z zs ih => simp [List.isPrefixOf, ih]
+
+theorem drop_app_cons (m a b : Path) (x y : Bool) :
+    List.drop (m ++ x :: a).length (m ++ y :: b) = List.drop a.length b := by
+  induction m with
+  | nil => simp
+  | cons z zs ih => simpa using ih
+
+/-! ### well-formedness -/
+
+/-- Not an edge node (the child of an edge is a binary or a value node). -/
+def NotEdge : Node → Prop
+  | .edge .. => False
+  | _ => True
+
+/-- Canonical resolved subtree of remaining height `n`: non-empty edge paths, no edge below an
+edge, binary nodes with two non-empty children, non-zero values exactly at depth 0. Flags are
+not constrained here (see `CacheOK`). -/
+inductive WF : Node → Nat → Prop
+  | value {v : HTerm} : v ≠ .felt 0 → WF (.value v) 0
+  | edge {p : Path} {c : Node} {n : Nat} {fl : Flags} :
+      p ≠ [] → WF c n → NotEdge c → WF (.edge p c fl) (p.length + n)
+  | bin {l r : Node} {n : Nat} {fl : Flags} : WF l n → WF r n → WF (.bin l r fl) (n + 1)
+
+/-- A trie root: empty or a canonical tree. -/
+def WFRoot (t : Node) (n : Nat) : Prop := t = .nil ∨ WF t n
+
+theorem WF.ne_nil {t : Node} {n : Nat} (h : WF t n) : t ≠ .nil := by
+  cases h <;> simp
+
+/-- Edge-shaped lookup. -/
+def getE (p : Path) (c : Node) (key : Path) : HTerm :=
+  if p.isPrefixOf key then Trie2.get c (key.drop p.length) else .felt 0
+
+theorem get_edge (p : Path) (c : Node) (fl : Flags) (key : Path) :
+    Trie2.get (.edge p c fl) key = getE p c key := by
+  simp [Trie2.get, getE]
+
+theorem get_insNil (p : Path) (c : Node) (key : Path) : Trie2.get (insNil p c) key = getE p c key := by
+  unfold insNil getE
+  cases p with
+  | nil => simp
+  | cons x xs => simp [Trie2.get]
+
+theorem WF_insNil {p : Path} {c : Node} {n : Nat} (hc : WF c n) (hne : NotEdge c) :
+    WF (insNil p c) (p.length + n) := by
+  unfold insNil
+  cases p with
+  | nil => simpa using hc
+  | cons x xs => exact WF.edge (by simp) hc hne
+
+theorem NotEdge_insNil_nil {c : Node} (hne : NotEdge c) : NotEdge (insNil [] c) := by
+  simpa [insNil] using hne
+
+/-! ### insert -/
+
+theorem ins_clean {t : Node} {key : Path} {v : HTerm} (h : (ins t key v).2 = false) :
+    (ins t key v).1 = t := by
+  induction t generalizing key with
+  | nil => cases key <;> simp [ins] at h
+  | value w =>
+    cases key with
+    | nil => simp [ins] at h ⊢; exact h
+    | cons b ks => simp [ins]
+  | hash x => cases key <;> simp [ins] at h ⊢
+  | edge p c fl ih =>
+    cases key with
+    | nil => simp [ins] at h
+    | cons b ks =>
+      simp only [ins] at h ⊢
+      by_cases h1 : (cpre p (b :: ks)).length = p.length
+      · simp only [h1, if_true] at h ⊢
+        by_cases h2 : (ins c (List.drop p.length (b :: ks)) v).2 = true
+        · simp [h2] at h
+        · simp [h2]
+      · simp only [h1, if_false] at h
+        split at h <;> simp at h
+  | bin l r fl ihl ihr =>
+    cases key with
+    | nil => simp [ins] at h
+    | cons b ks =>
+      simp only [ins] at h ⊢
+      cases b
+      · simp only [Bool.false_eq_true, if_false] at h ⊢
+        by_cases h2 : (ins l ks v).2 = true
+        · simp [h2] at h
+        · simp [h2]
+      · simp only [if_true] at h ⊢
+        by_cases h2 : (ins r ks v).2 = true
+        · simp [h2] at h
+        · simp [h2]
+
+theorem WF.cast {t : Node} {a b : Nat} (h : WF t a) (e : a = b) : WF t b := e ▸ h
+
+theorem get_bin_cons (l r : Node) (fl : Flags) (b : Bool) (ks : Path) :
+    Trie2.get (.bin l r fl) (b :: ks) = if b then Trie2.get r ks else Trie2.get l ks := by
+  simp [Trie2.get]
+
+theorem ins_nil_spec (key : Path) (v : HTerm) (hv : v ≠ .felt 0) :
+    WF (ins .nil key v).1 key.length ∧
+    ∀ k', k'.length = key.length → Trie2.get (ins .nil key v).1 k' = if k' = key then v else .felt 0 := by
+  cases key with
+  | nil =>
+    refine ⟨by simpa [ins] using WF.value hv, ?_⟩
+    intro k' hk'
+    have : k' = [] := List.length_eq_zero_iff.mp hk'
+    subst this; simp [ins, Trie2.get]
+  | cons b ks =>
+    refine ⟨?_, ?_⟩
+    · have := WF.edge (p := b :: ks) (fl := Flags.new) (by simp) (WF.value hv) (by simp [NotEdge])
+      simpa [ins] using this
+    · intro k' hk'
+      simp only [ins, get_edge, getE]
+      rw [isPrefixOf_same_len hk'.symm]
+      by_cases e : b :: ks = k'
+      · subst e; simp [Trie2.get]
+      · have e' : ¬ k' = b :: ks := fun h => e h.symm
+        simp [e, e']
+
+theorem ins_spec {t : Node} {n : Nat} (h : WF t n) (key : Path) (hk : key.length = n)
+    (v : HTerm) (hv : v ≠ .felt 0) :
+    WF (ins t key v).1 n ∧ (NotEdge t → NotEdge (ins t key v).1) ∧
+    ∀ k', k'.length = n → Trie2.get (ins t key v).1 k' = if k' = key then v else Trie2.get t k' := by
+  induction h generalizing key with
+  | value hw =>
+    have h1 : key = [] := List.length_eq_zero_iff.mp hk
+    subst h1
+    refine ⟨by simpa [ins] using WF.value hv, by simp [ins, NotEdge], ?_⟩
+    intro k' hk'
+    have h2 : k' = [] := List.length_eq_zero_iff.mp hk'
+    subst h2; simp [ins, Trie2.get]
+  | @bin l r n fl hl hr ihl ihr =>
+    cases key with
+    | nil => simp at hk
+    | cons b ks =>
+      have hks : ks.length = n := by simpa using hk
+      cases b
+      · obtain ⟨w1, _, g1⟩ := ihl ks hks
+        simp only [ins, Bool.false_eq_true, if_false]
+        by_cases h2 : (ins l ks v).2 = true
+        · simp only [h2, Bool.not_true, Bool.false_eq_true, if_false]
+          refine ⟨WF.bin w1 hr, by simp [NotEdge], ?_⟩
+          intro k' hk'
+          cases k' with
+          | nil => simp at hk'
+          | cons b' ks' =>
+            have hks' : ks'.length = n := by simpa using hk'
+            cases b' <;> simp [get_bin_cons, g1 ks' hks']
+        · have e := ins_clean (by simpa using h2 : (ins l ks v).2 = false)
+          rw [e] at g1
+          simp only [h2]
+          refine ⟨WF.bin hl hr, by simp [NotEdge], ?_⟩
+          intro k' hk'
+          cases k' with
+          | nil => simp at hk'
+          | cons b' ks' =>
+            have hks' : ks'.length = n := by simpa using hk'
+            cases b'
+            · simp only [get_bin_cons, Bool.false_eq_true, if_false, List.cons.injEq, true_and]
+              exact g1 ks' hks'
+            · simp [get_bin_cons]
+      · obtain ⟨w1, _, g1⟩ := ihr ks hks
+        simp only [ins, if_true]
+        by_cases h2 : (ins r ks v).2 = true
+        · simp only [h2, Bool.not_true, Bool.false_eq_true, if_false]
+          refine ⟨WF.bin hl w1, by simp [NotEdge], ?_⟩
+          intro k' hk'
+          cases k' with
+          | nil => simp at hk'
+          | cons b' ks' =>
+            have hks' : ks'.length = n := by simpa using hk'
+            cases b' <;> simp [get_bin_cons, g1 ks' hks']
+        · have e := ins_clean (by simpa using h2 : (ins r ks v).2 = false)
+          rw [e] at g1
+          simp only [h2]
+          refine ⟨WF.bin hl hr, by simp [NotEdge], ?_⟩
+          intro k' hk'
+          cases k' with
+          | nil => simp at hk'
+          | cons b' ks' =>
+            have hks' : ks'.length = n := by simpa using hk'
+            cases b'
+            · simp [get_bin_cons]
+            · simp only [get_bin_cons, if_true, List.cons.injEq, true_and]
+              exact g1 ks' hks'
+  | @edge p c n fl hp hc hne ih =>
+    cases key with
+    | nil =>
+      exfalso
+      cases p with
+      | nil => exact hp rfl
+      | cons _ _ => simp only [List.length_nil, List.length_cons] at hk; omega
+    | cons kb kks =>
+      simp only [ins]
+      by_cases hfull : (cpre p (kb :: kks)).length = p.length
+      · -- the edge path is a prefix of the key: descend
+        simp only [hfull, if_true]
+        have hpk : p.isPrefixOf (kb :: kks) = true := (cpre_full_iff p _).mp hfull
+        obtain ⟨kt, hkt⟩ := List.isPrefixOf_iff_prefix.mp hpk
+        rw [← hkt] at hk ⊢
+        have hktl : kt.length = n := by simp at hk; omega
+        simp only [List.drop_left]
+        obtain ⟨w1, ne1, g1⟩ := ih kt hktl
+        have key_get : ∀ (c' : Node) (fl' : Flags),
+            (∀ k', k'.length = n → Trie2.get c' k' = if k' = kt then v else Trie2.get c k') →
+            ∀ k', k'.length = p.length + n →
+              Trie2.get (.edge p c' fl') k' = if k' = p ++ kt then v else Trie2.get (.edge p c fl) k' := by
+          intro c' fl' g k' hk'
+          simp only [get_edge, getE]
+          by_cases hpk' : p.isPrefixOf k' = true
+          · obtain ⟨kt', rfl⟩ := List.isPrefixOf_iff_prefix.mp hpk'
+            have hkt' : kt'.length = n := by simp at hk'; omega
+            simp [g kt' hkt']
+          · have : k' ≠ p ++ kt := by
+              intro e; apply hpk'; rw [e]; exact List.isPrefixOf_iff_prefix.mpr ⟨kt, rfl⟩
+            simp [hpk', this]
+        by_cases h2 : (ins c kt v).2 = true
+        · simp only [h2, Bool.not_true, Bool.false_eq_true, if_false]
+          exact ⟨WF.edge hp w1 (ne1 hne), by simp [NotEdge], key_get _ _ g1⟩
+        · have e := ins_clean (by simpa using h2 : (ins c kt v).2 = false)
+          rw [e] at g1
+          simp only [h2]
+          exact ⟨WF.edge hp hc hne, by simp [NotEdge], key_get _ _ g1⟩
+      · -- branch out at the first differing bit
+        simp only [hfull, if_false]
+        obtain ⟨m, pb, prest, krest, hp', hk2, hm⟩ := cpre_split p (kb :: kks) (by omega) hfull
+        rw [hk2] at hk ⊢
+        subst hp'
+        rw [show cpre (m ++ pb :: prest) (m ++ (!pb) :: krest) = m from by rw [← hk2]; exact hm]
+        have hkr : krest.length = prest.length + n := by simp at hk; omega
+        have e1 : (m ++ pb :: prest).getD m.length false = pb := by simp
+        have e2 : (m ++ (!pb) :: krest).getD m.length false = !pb := by simp
+        have e3 : List.drop (m.length + 1) (m ++ pb :: prest) = prest := by
+          rw [show m ++ pb :: prest = (m ++ [pb]) ++ prest by simp]
+          rw [show m.length + 1 = (m ++ [pb]).length by simp]
+          exact List.drop_left
+        have e4 : List.drop (m.length + 1) (m ++ (!pb) :: krest) = krest := by
+          rw [show m ++ (!pb) :: krest = (m ++ [!pb]) ++ krest by simp]
+          rw [show m.length + 1 = (m ++ [!pb]).length by simp]
+          exact List.drop_left
+        simp only [e1, e2, e3, e4]
+        have wold : WF (insNil prest c) (prest.length + n) := WF_insNil hc hne
+        have wnew : WF (insNil krest (.value v)) (prest.length + n) :=
+          (WF_insNil (p := krest) (WF.value hv) (by simp [NotEdge])).cast (by omega)
+        -- lookups in the two new children
+        have gold : ∀ k'', Trie2.get (insNil prest c) k'' = getE prest c k'' := get_insNil _ _
+        have gnew : ∀ k'', k''.length = krest.length →
+            Trie2.get (insNil krest (.value v)) k'' = if k'' = krest then v else .felt 0 := by
+          intro k'' hl
+          rw [get_insNil]; unfold getE
+          rw [isPrefixOf_same_len hl.symm]
+          by_cases e : krest = k''
+          · subst e; simp [Trie2.get]
+          · have e' : ¬ k'' = krest := fun h => e h.symm
+            simp [e, e']
+        -- the branch node
+        have hbranch : ∀ (brl brr : Node),
+            (pb = false → brl = insNil prest c ∧ brr = insNil krest (.value v)) →
+            (pb = true → brl = insNil krest (.value v) ∧ brr = insNil prest c) →
+            WF (.bin brl brr Flags.new) (prest.length + n + 1) ∧
+            ∀ b' rs, rs.length = prest.length + n →
+              Trie2.get (.bin brl brr Flags.new) (b' :: rs) =
+                if b' :: rs = (!pb) :: krest then v else getE (pb :: prest) c (b' :: rs) := by
+          intro brl brr h0 h1
+          cases pb
+          · obtain ⟨rfl, rfl⟩ := h0 rfl
+            refine ⟨WF.bin wold wnew, ?_⟩
+            intro b' rs hrs
+            cases b'
+            · simp [get_bin_cons, gold, getE]
+            · simp [get_bin_cons, gnew rs (by omega), getE]
+          · obtain ⟨rfl, rfl⟩ := h1 rfl
+            refine ⟨WF.bin wnew wold, ?_⟩
+            intro b' rs hrs
+            cases b'
+            · simp [get_bin_cons, gnew rs (by omega), getE]
+            · simp [get_bin_cons, gold, getE]
+        obtain ⟨wbr, gbr⟩ := hbranch
+          (if (!pb) = false then insNil krest (.value v) else if pb = false then insNil prest c else .nil)
+          (if (!pb) = true then insNil krest (.value v) else if pb = true then insNil prest c else .nil)
+          (by intro h; subst h; simp) (by intro h; subst h; simp)
+        have hlen : (m ++ pb :: prest).length + n = m.length + (prest.length + n + 1) := by
+          simp; omega
+        by_cases hme : m = []
+        · subst hme
+          simp only [List.isEmpty_nil, if_true, List.nil_append]
+          refine ⟨wbr.cast (by simp; omega), by simp [NotEdge], ?_⟩
+          intro k' hk'
+          cases k' with
+          | nil => simp only [List.length_nil, List.length_cons, List.nil_append] at hk'; omega
+          | cons b' rs =>
+            have hrs : rs.length = prest.length + n := by simp at hk'; omega
+            rw [gbr b' rs hrs, get_edge]
+        · have hme' : m.isEmpty = false := by cases m <;> simp_all
+          simp only [hme', Bool.false_eq_true, if_false]
+          refine ⟨(WF.edge hme wbr (by simp [NotEdge])).cast hlen.symm, by simp [NotEdge], ?_⟩
+          intro k' hk'
+          rw [get_edge, get_edge]
+          unfold getE
+          by_cases hmk : m.isPrefixOf k' = true
+          · obtain ⟨r', rfl⟩ := List.isPrefixOf_iff_prefix.mp hmk
+            cases r' with
+            | nil => simp at hk'; omega
+            | cons b' rs =>
+              have hrs : rs.length = prest.length + n := by simp at hk'; omega
+              simp only [hmk, if_true, List.drop_left]
+              rw [gbr b' rs hrs]
+              simp only [isPrefixOf_app_cons, drop_app_cons, getE, List.append_cancel_left_eq]
+              cases pb <;> cases b' <;> simp [List.isPrefixOf]
+          · have hne1 : k' ≠ m ++ (!pb) :: krest := by
+              intro e; apply hmk; rw [e]; exact List.isPrefixOf_iff_prefix.mpr ⟨_, rfl⟩
+            have hne2 : (m ++ pb :: prest).isPrefixOf k' = false := by
+              cases h5 : (m ++ pb :: prest).isPrefixOf k' with
+              | false => rfl
+              | true =>
+                exfalso; apply hmk
+                obtain ⟨t, ht⟩ := List.isPrefixOf_iff_prefix.mp h5
+                exact List.isPrefixOf_iff_prefix.mpr ⟨pb :: prest ++ t, by simpa [List.append_assoc] using ht⟩
+            simp [hmk, hne1, hne2]
+
+/-! ### delete -/
+
+theorem del_clean {t : Node} {key : Path} (h : (del t key).2 = false) : (del t key).1 = t := by
+  induction t generalizing key with
+  | nil => simp [del]
+  | value w => simp [del] at h
+  | hash x => simp [del]
+  | edge p c fl ih =>
+    simp only [del] at h ⊢
+    by_cases h1 : (cpre p key).length < p.length
+    · simp [h1]
+    · simp only [h1, if_false] at h ⊢
+      by_cases h2 : (cpre p key).length = key.length
+      · simp [h2] at h
+      · simp only [h2, if_false] at h ⊢
+        by_cases h3 : (del c (List.drop p.length key)).2 = true
+        · simp only [h3, Bool.not_true, Bool.false_eq_true, if_false] at h
+          split at h <;> simp at h
+        · simp [h3]
+  | bin l r fl ihl ihr =>
+    cases key with
+    | nil => simp [del]
+    | cons b ks =>
+      simp only [del] at h ⊢
+      by_cases h3 : (if b = true then del r ks else del l ks).2 = true
+      · simp only [h3, Bool.not_true, Bool.false_eq_true, if_false] at h
+        split at h
+        · split at h <;> simp at h
+        · simp at h
+      · simp [h3]
+
+theorem getE_append (p q : Path) (c : Node) (k : Path) :
+    getE (p ++ q) c k = if p.isPrefixOf k then getE q c (k.drop p.length) else .felt 0 := by
+  induction p generalizing k with
+  | nil => simp
+  | cons x xs ih =>
+    cases k with
+    | nil => simp [getE]
+    | cons y ys =>
+      by_cases hxy : x = y
+      · subst hxy
+        have := ih ys
+        simp only [getE] at this ⊢
+        simpa [List.isPrefixOf] using this
+      · simp [getE, List.isPrefixOf, hxy]
+
+theorem WF_pos_notEdge {c : Node} {n : Nat} (h : WF c n) (hne : NotEdge c) (hn : 0 < n) :
+    ∃ l r fl, c = .bin l r fl := by
+  cases h with
+  | value _ => omega
+  | edge _ _ _ => simp [NotEdge] at hne
+  | bin _ _ => exact ⟨_, _, _, rfl⟩
+
+theorem WFRoot.wf {t : Node} {n : Nat} (h : WFRoot t n) (hne : t ≠ .nil) : WF t n := by
+  cases h with
+  | inl h => exact absurd h hne
+  | inr h => exact h
+
+theorem getE_cons (x : Bool) (q : Path) (c : Node) (y : Bool) (ks : Path) :
+    getE (x :: q) c (y :: ks) = if x = y then getE q c ks else .felt 0 := by
+  by_cases h : x = y <;> simp [getE, List.isPrefixOf, h]
+
+theorem del_spec {t : Node} {n : Nat} (h : WF t n) (key : Path) (hk : key.length = n) :
+    WFRoot (del t key).1 n ∧ ((∃ l r fl, t = .bin l r fl) → WF (del t key).1 n) ∧
+    ∀ k', k'.length = n →
+      Trie2.get (del t key).1 k' = if k' = key then .felt 0 else Trie2.get t k' := by
+  induction h generalizing key with
+  | value hw =>
+    have h1 : key = [] := List.length_eq_zero_iff.mp hk
+    subst h1
+    refine ⟨Or.inl (by simp [del]), by simp, ?_⟩
+    intro k' hk'
+    have h2 : k' = [] := List.length_eq_zero_iff.mp hk'
+    subst h2; simp [del, Trie2.get]
+  | @edge p c n fl hp hc hne ih =>
+    simp only [del]
+    have hle := cpre_length_le p key
+    by_cases h1 : (cpre p key).length < p.length
+    · -- mismatch: nothing to delete
+      simp only [h1, if_true]
+      have hnp : p.isPrefixOf key = false := by
+        cases h5 : p.isPrefixOf key with
+        | false => rfl
+        | true => have := (cpre_full_iff p key).mpr h5; omega
+      refine ⟨Or.inr (WF.edge hp hc hne), by simp, ?_⟩
+      intro k' hk'
+      by_cases e : k' = key
+      · subst e; simp [get_edge, getE, hnp]
+      · simp [e]
+    · have hfull : (cpre p key).length = p.length := by omega
+      simp only [h1, if_false]
+      simp only [hfull]
+      have hpk : p.isPrefixOf key = true := (cpre_full_iff p key).mp hfull
+      obtain ⟨kt, hkt⟩ := List.isPrefixOf_iff_prefix.mp hpk
+      subst hkt
+      have hktl : kt.length = n := by simp at hk; omega
+      by_cases h2 : p.length = (p ++ kt).length
+      · -- the edge leads to the leaf: remove it
+        simp only [h2, if_true]
+        have hkt0 : kt = [] := by simpa using h2
+        subst hkt0
+        refine ⟨Or.inl rfl, by simp, ?_⟩
+        intro k' hk'
+        simp only [Trie2.get, get_edge, getE, List.append_nil]
+        have hl : p.length = k'.length := by simp at hk'; omega
+        rw [isPrefixOf_same_len hl]
+        by_cases e : p = k'
+        · subst e; simp
+        · have e' : ¬ k' = p := fun h => e h.symm
+          simp [e, e']
+      · simp only [h2, if_false, List.drop_left]
+        have hnpos : 0 < n := by
+          cases kt with
+          | nil => simp at h2
+          | cons _ _ => simp at hktl; omega
+        obtain ⟨cl, cr, cfl, hcbin⟩ := WF_pos_notEdge hc hne hnpos
+        obtain ⟨_, w1, g1⟩ := ih kt hktl
+        have w1 := w1 ⟨_, _, _, hcbin⟩
+        have key_get : ∀ (c' : Node) (fl' : Flags),
+            (∀ k', k'.length = n → Trie2.get c' k' = if k' = kt then .felt 0 else Trie2.get c k') →
+            ∀ k', k'.length = p.length + n →
+              Trie2.get (.edge p c' fl') k' =
+                if k' = p ++ kt then .felt 0 else Trie2.get (.edge p c fl) k' := by
+          intro c' fl' g k' hk'
+          simp only [get_edge, getE]
+          by_cases hpk' : p.isPrefixOf k' = true
+          · obtain ⟨kt', rfl⟩ := List.isPrefixOf_iff_prefix.mp hpk'
+            have hkt' : kt'.length = n := by simp at hk'; omega
+            simp [g kt' hkt']
+          · have : k' ≠ p ++ kt := by
+              intro e; apply hpk'; rw [e]; exact List.isPrefixOf_iff_prefix.mpr ⟨kt, rfl⟩
+            simp [hpk', this]
+        by_cases h3 : (del c kt).2 = true
+        · simp only [h3, Bool.not_true, Bool.false_eq_true, if_false]
+          cases hres : (del c kt).1 with
+          | edge q cc qfl =>
+            rw [hres] at w1 g1
+            simp only []
+            cases w1 with
+            | @edge _ _ n' _ hq hcc hncc =>
+              refine ⟨Or.inr ((WF.edge (by simp [hp]) hcc hncc).cast (by simp; omega)), by simp, ?_⟩
+              intro k' hk'
+              have := key_get (.edge q cc qfl) fl g1 k' hk'
+              rw [← this]
+              simp only [get_edge]
+              rw [getE_append]
+              simp only [getE, get_edge]
+          | nil => rw [hres] at w1; exact absurd rfl w1.ne_nil
+          | value x =>
+            rw [hres] at w1 g1
+            simp only []
+            exact ⟨Or.inr (WF.edge hp w1 (by simp [NotEdge])), by simp, key_get _ _ g1⟩
+          | hash x =>
+            rw [hres] at w1 g1
+            simp only []
+            exact ⟨Or.inr (WF.edge hp w1 (by simp [NotEdge])), by simp, key_get _ _ g1⟩
+          | bin bl br bfl =>
+            rw [hres] at w1 g1
+            simp only []
+            exact ⟨Or.inr (WF.edge hp w1 (by simp [NotEdge])), by simp, key_get _ _ g1⟩
+        · have e := del_clean (by simpa using h3 : (del c kt).2 = false)
+          rw [e] at g1
+          simp only [h3]
+          exact ⟨Or.inr (WF.edge hp hc hne), by simp, key_get _ _ g1⟩
+  | @bin l r n fl hl hr ihl ihr =>
+    cases key with
+    | nil => simp at hk
+    | cons b ks =>
+      have hks : ks.length = n := by simpa using hk
+      simp only [del]
+      -- the child we descend into and the other one
+      have hch : ∀ (ch other : Node), WF ch n → WF other n →
+          (WFRoot (del ch ks).1 n ∧
+            ∀ k', k'.length = n → Trie2.get (del ch ks).1 k' = if k' = ks then .felt 0 else Trie2.get ch k') →
+          (∀ b' ks', Trie2.get (.bin l r fl) (b' :: ks') = if b' = b then Trie2.get ch ks' else Trie2.get other ks') →
+          (∀ c' : Node, WF c' n → WF (if b = true then .bin l c' Flags.new else .bin c' r Flags.new) (n + 1) ∧
+            ∀ b' ks', Trie2.get (if b = true then .bin l c' Flags.new else .bin c' r Flags.new) (b' :: ks') =
+              if b' = b then Trie2.get c' ks' else Trie2.get other ks') →
+          (del ch ks).2 = true →
+          WF (match (del ch ks).1 with
+              | .nil => (match other with
+                | .edge q cc _ => (Node.edge ((!b) :: q) cc Flags.new, true)
+                | o => (Node.edge [!b] o Flags.new, true))
+              | c' => (if b = true then Node.bin l c' Flags.new else Node.bin c' r Flags.new, true)).1 (n + 1) ∧
+          ∀ k', k'.length = n + 1 →
+            Trie2.get (match (del ch ks).1 with
+              | .nil => (match other with
+                | .edge q cc _ => (Node.edge ((!b) :: q) cc Flags.new, true)
+                | o => (Node.edge [!b] o Flags.new, true))
+              | c' => (if b = true then Node.bin l c' Flags.new else Node.bin c' r Flags.new, true)).1 k' =
+              if k' = b :: ks then .felt 0 else Trie2.get (.bin l r fl) k' := by
+        intro ch other wch wother ⟨w1, g1⟩ gbin grepl _
+        have fin : ∀ (res : Node), WF res (n + 1) →
+            (∀ b' ks', ks'.length = n → Trie2.get res (b' :: ks') =
+              if b' = b then (if ks' = ks then .felt 0 else Trie2.get ch ks') else Trie2.get other ks') →
+            WF res (n + 1) ∧ ∀ k', k'.length = n + 1 →
+              Trie2.get res k' = if k' = b :: ks then .felt 0 else Trie2.get (.bin l r fl) k' := by
+          intro res wres gres
+          refine ⟨wres, ?_⟩
+          intro k' hk'
+          cases k' with
+          | nil => simp at hk'
+          | cons b' ks' =>
+            have hks' : ks'.length = n := by simpa using hk'
+            rw [gres b' ks' hks', gbin]
+            by_cases e : b' = b
+            · subst e; simp
+            · simp [e]
+        cases hres : (del ch ks).1 with
+        | nil =>
+          rw [hres] at g1
+          have gz : ∀ ks', ks'.length = n → (if ks' = ks then HTerm.felt 0 else Trie2.get ch ks') = .felt 0 := by
+            intro ks' hl
+            have := g1 ks' hl
+            simp only [Trie2.get] at this
+            exact this.symm
+          cases other with
+          | edge q cc qfl =>
+            simp only []
+            cases wother with
+            | @edge _ _ n' _ hq hcc hncc =>
+              apply fin
+              · exact (WF.edge (by simp) hcc hncc).cast (by simp; omega)
+              · intro b' ks' hl
+                rw [get_edge, getE_cons, gz ks' hl, get_edge]
+                cases b <;> cases b' <;> simp
+          | nil => exact absurd rfl wother.ne_nil
+          | value x =>
+            simp only []
+            apply fin
+            · exact (WF.edge (by simp) wother (by simp [NotEdge])).cast (by simp; omega)
+            · intro b' ks' hl
+              rw [get_edge, getE_cons, gz ks' hl]
+              cases b <;> cases b' <;> simp [getE]
+          | hash x =>
+            simp only []
+            apply fin
+            · exact (WF.edge (by simp) wother (by simp [NotEdge])).cast (by simp; omega)
+            · intro b' ks' hl
+              rw [get_edge, getE_cons, gz ks' hl]
+              cases b <;> cases b' <;> simp [getE]
+          | bin ol or_ ofl =>
+            simp only []
+            apply fin
+            · exact (WF.edge (by simp) wother (by simp [NotEdge])).cast (by simp; omega)
+            · intro b' ks' hl
+              rw [get_edge, getE_cons, gz ks' hl]
+              cases b <;> cases b' <;> simp [getE]
+        | value x =>
+          rw [hres] at w1 g1
+          simp only []
+          obtain ⟨wr, gr⟩ := grepl _ (w1.wf (by simp))
+          apply fin _ wr
+          intro b' ks' hl
+          rw [gr]
+          by_cases e : b' = b
+          · simp [e, g1 ks' hl]
+          · simp [e]
+        | hash x =>
+          rw [hres] at w1 g1
+          simp only []
+          obtain ⟨wr, gr⟩ := grepl _ (w1.wf (by simp))
+          apply fin _ wr
+          intro b' ks' hl
+          rw [gr]
+          by_cases e : b' = b
+          · simp [e, g1 ks' hl]
+          · simp [e]
+        | edge q cc qfl =>
+          rw [hres] at w1 g1
+          simp only []
+          obtain ⟨wr, gr⟩ := grepl _ (w1.wf (by simp))
+          apply fin _ wr
+          intro b' ks' hl
+          rw [gr]
+          by_cases e : b' = b
+          · simp [e, g1 ks' hl]
+          · simp [e]
+        | bin bl br bfl =>
+          rw [hres] at w1 g1
+          simp only []
+          obtain ⟨wr, gr⟩ := grepl _ (w1.wf (by simp))
+          apply fin _ wr
+          intro b' ks' hl
+          rw [gr]
+          by_cases e : b' = b
+          · simp [e, g1 ks' hl]
+          · simp [e]
+      by_cases h3 : (if b = true then del r ks else del l ks).2 = true
+      · simp only [h3, Bool.not_true, Bool.false_eq_true, if_false]
+        cases b
+        · simp only [Bool.false_eq_true, if_false] at h3 ⊢
+          obtain ⟨a1, _, a3⟩ := ihl ks hks
+          have := hch l r hl hr ⟨a1, a3⟩ (by intro b' ks'; cases b' <;> simp [get_bin_cons])
+            (by intro c' wc'; exact ⟨WF.bin wc' hr, by intro b' ks'; cases b' <;> simp [get_bin_cons]⟩) h3
+          simp only [Bool.false_eq_true, if_false, Bool.not_false] at this
+          exact ⟨Or.inr this.1, fun _ => this.1, this.2⟩
+        · simp only [if_true] at h3 ⊢
+          obtain ⟨a1, _, a3⟩ := ihr ks hks
+          have := hch r l hr hl ⟨a1, a3⟩ (by intro b' ks'; cases b' <;> simp [get_bin_cons])
+            (by intro c' wc'; exact ⟨WF.bin hl wc', by intro b' ks'; cases b' <;> simp [get_bin_cons]⟩) h3
+          simp only [if_true, Bool.not_true] at this
+          exact ⟨Or.inr this.1, fun _ => this.1, this.2⟩
+      · simp only [h3]
+        have hcl : (if b = true then del r ks else del l ks).2 = false := by simpa using h3
+        refine ⟨Or.inr (WF.bin hl hr), fun _ => WF.bin hl hr, ?_⟩
+        intro k' hk'
+        cases k' with
+        | nil => simp at hk'
+        | cons b' ks' =>
+          have hks' : ks'.length = n := by simpa using hk'
+          by_cases e : b' :: ks' = b :: ks
+          · simp only [e, if_true]
+            cases b
+            · simp only [Bool.false_eq_true, if_false] at hcl
+              have e2 := del_clean hcl
+              obtain ⟨_, _, a3⟩ := ihl ks hks
+              have := a3 ks hks
+              rw [e2] at this
+              simpa [get_bin_cons] using this
+            · simp only [if_true] at hcl
+              have e2 := del_clean hcl
+              obtain ⟨_, _, a3⟩ := ihr ks hks
+              have := a3 ks hks
+              rw [e2] at this
+              simpa [get_bin_cons] using this
+          · simp [e]
 
 end Juno.C01
